@@ -52,6 +52,7 @@ def uf_axioms(C: Ctx):
                 # exp is strictly increasing and exp(log x) = x:  y < log x  <=>  exp y < x
                 ax.append(z3.Implies(x > 0, (y < rl) == (re_ < x)))
                 ax.append(z3.Implies(z3.And(x > 0, x * re_ == 1), rl == -y))
+                ax.append(z3.Implies(z3.And(x > 0, y == -rl), re_ * x == 1))  # exp(-log x) = 1/x
     # exp(a) * exp(b) relations: exp(a+b) -- instantiate for triples only when small
     for fam in ("exp", "exp10"):
         apps = U.get(fam, [])
@@ -85,10 +86,11 @@ def uf_axioms(C: Ctx):
         x1, k1 = a1
         x2, k2 = a2
         pos = z3.And(x1 > 0, x2 > 0)
+        ax.append(z3.Implies(z3.And(pos, k1 == k2, k1 > 0), (x1 < x2) == (r1 < r2)))
+        ax.append(z3.Implies(z3.And(pos, k1 == k2, k1 < 0), (x1 < x2) == (r1 > r2)))
         if a1[0].get_id() <= a2[0].get_id():
             ax.append(z3.Implies(z3.And(x1 == x2, k1 == k2), r1 == r2))
-            ax.append(z3.Implies(z3.And(pos, k1 == k2, k1 > 0), (x1 < x2) == (r1 < r2)))
-            ax.append(z3.Implies(z3.And(pos, k1 == k2, k1 < 0), (x1 < x2) == (r1 > r2)))
+            ax.append(z3.Implies(z3.And(pos, k1 == k2, k1 != 0), (x1 == x2) == (r1 == r2)))
             ax.append(z3.Implies(z3.And(pos, x1 * x2 == 1, k1 == k2), r1 * r2 == 1))
             ax.append(z3.Implies(z3.And(pos, x1 == x2, k1 == -k2), r1 * r2 == 1))
         # inverse pairs
